@@ -9,12 +9,14 @@ vars == <<desc, lab>>
 Base == [k \in 1..(NA + NB) |-> IF k <= NA THEN <<"A", 10 + k, " ">> ELSE <<"B", 10 + (k - NA), " ">>]
 ChainMaps == { [A |-> "A", B |-> "B"], [A |-> "B", B |-> "A"], [A |-> " ", B |-> "B"], [A |-> "X", B |-> "Y"] }
 Shifts == {0, 100, -40, -11, 3, 1000, -1000}      \* 3: chain B starts at the number chain A ends with (Base: A 11..14, B 11..13)
-Modes == {"none", "sequential", "twinsA", "twinsB", "twinsStartA"}
+Modes == {"none", "sequential", "twinsA", "twinsB", "twinsStartA", "codeA", "codeB"}
 Descs == [cm : ChainMaps, sa : Shifts, sb : Shifts, mode : Modes]
 Apply(d) ==
   LET l0 == CASE d.mode = "twinsA" -> MakeTwins(Base, 2)
               [] d.mode = "twinsB" -> MakeTwins(Base, NA + 2)
               [] d.mode = "twinsStartA" -> MakeTwins(Base, 1)
+              [] d.mode = "codeA" -> AddCode(Base, 2)
+              [] d.mode = "codeB" -> AddCode(Base, NA + 2)
               [] OTHER -> Base
       l1 == Shift(Shift(l0, "A", d.sa), "B", d.sb)
       l2 == IF d.mode = "sequential" THEN Sequential(l1, 1) ELSE l1
